@@ -2,6 +2,7 @@ CONSTANTS
   Positions = {"lis_ctx", "lis_set", "clu", "cm", "ext", "sf", "sfa", "exta"}
   Endpoints = {"full", "mosnconfig", "allrouters", "allclusters", "alllisteners", "router", "cluster", "listener"}
   MaxOps = 4
+  KeyForms = {"pem"}
   ArrayLen = 2
   Defects = {}
 SPECIFICATION Spec
